@@ -885,6 +885,10 @@ static int dualMode(const char* casefile, const std::string& tmp)
       std::string ps = "EXC", dsn = "EXC";
       double pv = 0, dv = 0;
 
+      // the simplifier is switched off in both solves: this leg compares the LP that was written with the LP it was
+      // written from, it does not judge the presolver (C08)
+      a.setIntParam(SP::SIMPLIFIER, SP::SIMPLIFIER_OFF);
+
       try
       {
          ps = statusName(a.optimize());
@@ -898,6 +902,7 @@ static int dualMode(const char* casefile, const std::string& tmp)
       quiet(b);
       b.setIntParam(SP::READMODE, SP::READMODE_REAL);
       b.setIntParam(SP::SYNCMODE, SP::SYNCMODE_ONLYREAL);
+      b.setIntParam(SP::SIMPLIFIER, SP::SIMPLIFIER_OFF);
       bool ok = false;
 
       try
